@@ -29,7 +29,11 @@ from engines.store import StoreEngine, Gen, Exec, Skip, apply_ref, spell, draw_v
 ROUTES = ('serialize_database', 'serialize_parts', 'persist_database', 'persist_parts', 'persist_parts_one_file',
           'serialize_dispatch')
 KEYWORD_NAMES = ['TABLE', 'CREATE', 'INSERT', 'INTO', 'VALUES', 'ROP', 'REF_ID', 'FROM', 'TO', 'PHRASE', 'UNIQUE',
-                 'INDEX', 'ON', 'TRUE', 'FALSE', 'M', 'MC', 'table', 'From', 'm']
+                 'INDEX', 'ON', 'TRUE', 'FALSE', 'M', 'MC', 'table', 'From', 'm',
+                 # names that look like other tokens of the dialect, or like attributes of python classes
+                 'R1', 'R2D2', 'R10x', 'mro']
+ODD_PHRASES = ["is employee's boss", "reports to employee's boss", 'has (many)', 'says "hi" to', 'a -- b', 'x, y;', "''",
+               ' padded ', 'PHRASE', "it''s"]
 
 store.PROFILES['C01'] = dict(new=5, new_args=2, relate=7, unrelate=2, delete=1.5, setattr=7, checkpoint=4, select=0.5, nav=0.5)
 
@@ -75,6 +79,17 @@ def rename_with_keywords(rng, schema):
         a['tgt'] = kmap.get(a['tgt'], a['tgt'])
     for c in schema['classes']:
         c['kind'] = kmap.get(c['kind'], c['kind'])
+    # phrases are free text: apostrophes, quotes, comment markers and punctuation included
+    # (one consistent renaming: equal phrases stay equal, different ones stay different)
+    if rng.random() < 0.15:
+        pmap = {}
+        for a in schema['assocs']:
+            for end in ('src_phrase', 'tgt_phrase'):
+                if a[end] and a[end] not in pmap and rng.random() < 0.7:
+                    pmap[a[end]] = '%s (%s)' % (rng.choice(ODD_PHRASES), a[end])
+        for a in schema['assocs']:
+            for end in ('src_phrase', 'tgt_phrase'):
+                a[end] = pmap.get(a[end], a[end])
     return schema
 
 
